@@ -6,11 +6,11 @@ CONSTANTS
   W = 2
   SyncSet = {1, 3}
   QCap = 1
-  MaxFaults = 1
+  MaxFaults = 0
   BugDedupLT = FALSE
   BugNoReplay = FALSE
   BugPopBeyondSync = FALSE
-  BugGrowCopyUnwrapped = FALSE
+  BugGrowCopyUnwrapped = TRUE
   BugReclaimAfterPut = FALSE
   GenMode = FALSE
 VIEW view
